@@ -114,7 +114,7 @@ func (c *runCtx) mutations(b []byte, f func(m mutation)) {
 				f(mutation{"substitute", d})
 			}
 		} else {
-			k := c.pick(3, 8)
+			k := c.pick(4, 8)
 			for j := 0; j < k; j++ {
 				d := append([]byte{}, b...)
 				v := byte(c.rng.IntN(256))
@@ -446,7 +446,7 @@ func monC19(c *runCtx) {
 		cliFiles = append(cliFiles, filepath.Join("objects", id[:2], id[2:]))
 	}
 	cmds := [][]string{{"status"}, {"ls-files", "-s"}, {"log"}, {"reflog"}, {"rev-parse", "HEAD"}, {"cat-file", "-p", r.objects[0]}, {"cat-file", "-t", r.objects[len(r.objects)-1]}, {"branch", "--list"}, {"write-tree"}}
-	ncli := c.pick(400, 6000) / c.of
+	ncli := c.pick(2400, 12000) / c.of
 	for i := 0; i < ncli; i++ {
 		rel := cliFiles[c.rng.IntN(len(cliFiles))]
 		valid := r.files[rel]
